@@ -23,7 +23,7 @@ from .codegen import (
 )
 from .error import InvalidTypes
 from .origin import NO_ORIGIN, Origin
-from .serialize import TYPE_KEY, DataClassSerializeMixin
+from .serialize import TYPE_KEY, DataClassSerializeMixin, SerializationOption
 from .types import get_cls_all_fields, get_cls_child_fields, get_cls_props
 from .typing import Field, FieldTypeInfo, check_annotations, is_instance
 
@@ -312,11 +312,15 @@ class ASTNode(DataClassSerializeMixin):
             self._get_serialization_options().get(AST_SERIALIZE_DIALECT_KEY)
             == ASTSerializationDialects.AST_TEST
         ):
-            out.get("origin", {})["source"] = {
-                TYPE_KEY: "Source",
-                "source_uri": "",
-                "source_type": "",
-            }
+            # The placeholder source follows the options of the call
+            # like any other serialized mapping
+            options = self._get_serialization_options()
+            source: dict[str, Any] = {"source_uri": "", "source_type": ""}
+            if options.get(SerializationOption.SORT_KEYS, False):
+                source = dict(sorted(source.items()))
+            if not options.get(SerializationOption.SKIP_CLASS, False):
+                source = {TYPE_KEY: "Source", **source}
+            out.get("origin", {})["source"] = source
 
         return out
 
